@@ -156,7 +156,10 @@ func (a *remoteAuthorizer) Execute(ctx heimdall.Context, sub *subject.Subject) e
 	}
 
 	if a.ttl > 0 {
-		cacheKey = a.calculateCacheKey(sub, vals, payload)
+		if cacheKey, err = a.cacheKeyFor(ctx, sub, vals, payload); err != nil {
+			return err
+		}
+
 		if entry, err := cch.Get(ctx.AppContext(), cacheKey); err == nil {
 			var ai authorizationInformation
 
@@ -246,22 +249,7 @@ func (a *remoteAuthorizer) doAuthorize(
 	logger := zerolog.Ctx(ctx.AppContext())
 	logger.Debug().Msg("Calling remote authorization endpoint")
 
-	endpointRenderer := endpoint.RenderFunc(func(tplString string) (string, error) {
-		tpl, err := template.New(tplString)
-		if err != nil {
-			return "", errorchain.NewWithMessage(heimdall.ErrInternal, "failed to create template").
-				WithErrorContext(a).
-				CausedBy(err)
-		}
-
-		return tpl.Render(map[string]any{
-			"Subject": sub,
-			"Values":  values,
-			"Outputs": ctx.Outputs(),
-		})
-	})
-
-	req, err := a.e.CreateRequest(ctx.AppContext(), strings.NewReader(payload), endpointRenderer)
+	req, err := a.e.CreateRequest(ctx.AppContext(), strings.NewReader(payload), a.endpointRenderer(ctx, sub, values))
 	if err != nil {
 		return nil, errorchain.NewWithMessage(heimdall.ErrInternal, "failed creating request").
 			WithErrorContext(a).
@@ -339,6 +327,57 @@ func (a *remoteAuthorizer) readResponse(ctx heimdall.Context, resp *http.Respons
 	}
 
 	return result, nil
+}
+
+func (a *remoteAuthorizer) endpointRenderer(
+	ctx heimdall.Context,
+	sub *subject.Subject,
+	values map[string]string,
+) endpoint.Renderer {
+	return endpoint.RenderFunc(func(tplString string) (string, error) {
+		tpl, err := template.New(tplString)
+		if err != nil {
+			return "", errorchain.NewWithMessage(heimdall.ErrInternal, "failed to create template").
+				WithErrorContext(a).
+				CausedBy(err)
+		}
+
+		return tpl.Render(map[string]any{
+			"Subject": sub,
+			"Values":  values,
+			"Outputs": ctx.Outputs(),
+		})
+	})
+}
+
+// cacheKeyFor returns the key calculated by calculateCacheKey, which covers the subject, the values
+// and the payload. If the URL or the headers of the endpoint reference the outputs of other
+// mechanisms, the rendered URL and header values, which are part of the request sent to the
+// endpoint and may influence the response, become part of the key as well.
+func (a *remoteAuthorizer) cacheKeyFor(
+	ctx heimdall.Context,
+	sub *subject.Subject,
+	values map[string]string,
+	payload string,
+) (string, error) {
+	key := a.calculateCacheKey(sub, values, payload)
+
+	if !a.e.References(".Outputs") {
+		return key, nil
+	}
+
+	settings, err := a.e.RenderedSettings(a.endpointRenderer(ctx, sub, values))
+	if err != nil {
+		return "", errorchain.NewWithMessage(heimdall.ErrInternal, "failed to calculate cache key").
+			WithErrorContext(a).
+			CausedBy(err)
+	}
+
+	hash := sha256.New()
+	hash.Write(stringx.ToBytes(key))
+	hashx.WriteStrings(hash, settings...)
+
+	return hex.EncodeToString(hash.Sum(nil)), nil
 }
 
 func (a *remoteAuthorizer) calculateCacheKey(sub *subject.Subject, values map[string]string, payload string) string {
